@@ -29,7 +29,8 @@ def _table(jdd, den_of):
 
 def _base(kind, case):
     return {"kind": kind, "case": case, "raised": "", "first": [], "second": [], "entry": [],
-            "have_second": False, "have_entry": False, "second_raised": "", "entry_raised": "", "earlier_changed": False}
+            "have_second": False, "have_entry": False, "second_raised": "", "entry_raised": "", "earlier_changed": False,
+            "after_sampling": [], "have_after_sampling": False}
 
 
 _HELD = []      # the last few loader objects with the table they reported when they were built
@@ -57,6 +58,13 @@ def _history(tr, build_direct, build_entry, den_of, deterministic=True):
     except Exception as ex:
         tr["raised"] = "%s: %s" % (type(ex).__name__, str(ex)[:70])
         return None
+    # drawing a sequence from the loader must leave the law it exposes as it is
+    try:
+        Oracle().run_seeded(11, lambda: obj.sample_jds_from_jdd(3))
+        tr["after_sampling"] = _table(obj.jdd, den_of)
+        tr["have_after_sampling"] = True
+    except Exception:
+        pass
     if deterministic:
         try:
             obj.create_jdd()
@@ -176,7 +184,7 @@ def run_marginal_sample1(case):
     tr = _base("marginal_sample1", case)
     tr["F"] = [[{"k": k, "w": w} for k, w in col] for col in case["F"]]
     tr["bounds"] = [list(b) for b in case["bounds"]]
-    tr.update({"decided": True, "tally": [], "why": "", "leaves": 0})
+    tr.update({"decided": True, "tally": [], "why": "", "leaves": 0, "not_single": False})
     Ws = [sum(F[i].get(k, 0) for k in range(b[0], b[1] + 1)) for i, b in enumerate(case["bounds"])]
     grid = lambda idx: Ws[idx] if idx < len(Ws) else 0
     from fractions import Fraction
@@ -186,10 +194,17 @@ def run_marginal_sample1(case):
     for w_ in Ws:
         total_w *= w_
     try:
-        for obj, trail, wgt in orc.enumerate(lambda: gcmpy.JointDegreeMarginal(dict(p)), grid=grid, max_leaves=20000):
+        if case.get("via") == "entry":      # the dispatching entry point (it builds the table a second time)
+            build = lambda: gcmpy.JointDegreeDistribution.load_joint_degree({**p, JN.JOINT_DEGREE_TYPE: "marginal"})
+        else:
+            build = lambda: gcmpy.JointDegreeMarginal(dict(p))
+        for obj, trail, wgt in orc.enumerate(build, grid=grid, max_leaves=20000):
             tr["leaves"] += 1
             keys = list(obj.jdd)
-            if len(keys) != 1 or any(t[0] != "r" for t in trail):
+            if len(keys) != 1:
+                tr["not_single"] = True      # the relative frequencies of ONE sample are one tuple with weight 1, however it is drawn
+                break
+            if any(t[0] != "r" for t in trail):
                 tr["decided"], tr["why"] = False, "one-sample run is not a single tuple drawn through random()"
                 break
             k = tuple(int(v) for v in keys[0])
@@ -228,7 +243,10 @@ def run_marginal_freq(case):
             return r
         cls.draw_from_analytical_joint = wrapper
     try:
-        obj = Oracle().run_seeded(case["seed"], lambda: cls(dict(p)))
+        if case.get("via") == "entry":
+            obj = Oracle().run_seeded(case["seed"], lambda: gcmpy.JointDegreeDistribution.load_joint_degree({**p, JN.JOINT_DEGREE_TYPE: "marginal"}))
+        else:
+            obj = Oracle().run_seeded(case["seed"], lambda: cls(dict(p)))
         tr["first"] = _table(obj.jdd, lambda key: n)
     except Exception as ex:
         tr["raised"] = "%s: %s" % (type(ex).__name__, str(ex)[:70])
